@@ -176,9 +176,9 @@ func cloneOverlay(o map[string]map[string]*ovRow) map[string]map[string]*ovRow {
 type Server struct {
 	mu sync.Mutex
 
-	Name    string
-	Schema  string
-	version string
+	Name     string
+	Schema   string
+	version  string
 	autoStep int64 // auto_increment_increment of this server (0 = 1)
 
 	tables map[string]*Table
